@@ -35,6 +35,9 @@ struct Case
     uint8_t op{0};        // 0 copy-construct, 1 copy-assign, 2 move-construct, 3 move-assign
     PacketSpec src;
     PacketSpec dst;
+    // relation 4 only: 0 = a header field differs; 1..3 = the headers are equal and the payload bytes differ in one bit (position
+    // dst.dev) / are one byte shorter / one byte longer; 4 = the payload type byte differs in one bit
+    uint8_t payloadDiff{0};
     void io(Ar& a)
     {
         a.num("domain", domain);
@@ -42,8 +45,23 @@ struct Case
         a.num("op", op);
         src.io(a);
         dst.io(a);
+        if (a.writing || a.peekName() == "payloadDiff")
+            a.num("payloadDiff", payloadDiff);
     }
 };
+
+// bytes of an equal-looking payload: one bit flipped / last byte dropped / one byte appended
+static Bytes nearlyEqualBytes(const uint8_t* data, size_t size, uint8_t how, unsigned bit)
+{
+    Bytes b(data, data + size);
+    if (how == 1 && !b.empty())
+        b[(bit / 8) % b.size()] ^= static_cast<uint8_t>(1u << (bit % 8));
+    else if (how == 2 && !b.empty())
+        b.pop_back();
+    else
+        b.push_back(how == 3 ? 0 : static_cast<uint8_t>(bit));
+    return b;
+}
 
 // fills a packet in place: the set-up itself must not go through the operations under test
 static void fillFromSpec(lib::Packet& p, const PacketSpec& s)
@@ -143,6 +161,20 @@ static Verdict runPacket(const Case& c, Info& info)
             lib::Packet& d = *dstPtr;
             // exactly one bit of exactly one header field differs (bit position taken from the target spec)
             const unsigned bit = c.dst.dev;
+            if (c.payloadDiff && d.verifHasPayload())
+            {
+                const lib::Payload& pl = d.getPayload();
+                if (c.payloadDiff == 4)
+                    d.getPayload().setRawPayloadType(static_cast<uint8_t>(d.getPayloadType() ^ (1u << (bit % 8))));
+                else
+                {
+                    Bytes nb = nearlyEqualBytes(pl.getRawPayload(), pl.getLength(), c.payloadDiff, bit);
+                    static const uint8_t dummy = 0;
+                    d.setPayload(lib::Payload(pl.getType(), nb.empty() ? &dummy : nb.data(), nb.size()));
+                }
+                info.tag("equal_headers_nearly_equal_payload");
+                break;
+            }
             switch (c.dst.seq % 9)
             {
                 case 0:
@@ -303,6 +335,23 @@ static Verdict runPayload(const Case& c, Info& info, P srcInit, P dstInit)
         other = P(src);
         other.setRawPayloadType(static_cast<uint8_t>(other.getRawPayloadType() ^ 0x10));
     }
+    if (c.relation == 4)
+    {
+        // equal-looking: one bit of the type byte or of a data byte differs, or the data is one byte shorter / longer
+        const unsigned bit = c.dst.dev;
+        if (c.payloadDiff == 0 || c.payloadDiff == 4)
+        {
+            other = P(src);
+            other.setRawPayloadType(static_cast<uint8_t>(other.getRawPayloadType() ^ (1u << (bit % 8))));
+        }
+        else
+        {
+            Bytes nb = nearlyEqualBytes(src.getRawPayload(), src.getLength(), c.payloadDiff, bit);
+            static const uint8_t dummy = 0;
+            other = P(src.getType(), nb.empty() ? &dummy : nb.data(), nb.size());
+        }
+        info.tag("nearly_equal_payload_pair");
+    }
     bool ab = src == other, ba = other == src;
     VF_CHECK(ab == ba, "payload equality is not symmetric");
     VF_CHECK(ab == (psnap(other) == before), "payload a == b is " << ab << " but type / length / bytes comparison says " << (psnap(other) == before));
@@ -418,6 +467,9 @@ static rc::Gen<Case> genCase(int)
         {
             c.dst.seq = *range<uint16_t>(0, 8);   // which field differs
             c.dst.dev = *range<uint16_t>(0, 63);  // which bit of it
+            c.payloadDiff = *rc::gen::weightedElement<uint8_t>({{4, 0}, {3, 1}, {1, 2}, {1, 3}, {1, 4}});
+            if (c.payloadDiff == 1)
+                c.dst.dev = *range<uint16_t>(0, 2047);  // which bit of the data
         }
         // equal-looking pairs of different payload types / both zero-length are the interesting region
         if (*range<int>(0, 3) == 0)
